@@ -8,24 +8,57 @@ import (
 
 // implements the reverse operation Sel -> string
 
-var specialCharReplacer *strings.Replacer
-
-func init() {
-	var pairs []string
-	for _, s := range ",!\"#$%&'()*+ -./:;<=>?@[\\]^`{|}~" {
-		pairs = append(pairs, string(s), "\\"+string(s))
+// escape serializes an identifier, following
+// https://drafts.csswg.org/cssom/#serialize-an-identifier
+func escape(s string) string {
+	var b strings.Builder
+	for i, r := range s {
+		switch {
+		case r == 0:
+			b.WriteRune('\uFFFD')
+		case r <= 0x1F || r == 0x7F,
+			i == 0 && '0' <= r && r <= '9',
+			i == 1 && '0' <= r && r <= '9' && s[0] == '-':
+			fmt.Fprintf(&b, "\\%x ", r)
+		case i == 0 && r == '-' && len(s) == 1:
+			b.WriteString("\\-")
+		case r >= 0x80, r == '-', r == '_', '0' <= r && r <= '9', 'a' <= r && r <= 'z', 'A' <= r && r <= 'Z':
+			b.WriteRune(r)
+		default:
+			b.WriteByte('\\')
+			b.WriteRune(r)
+		}
 	}
-	specialCharReplacer = strings.NewReplacer(pairs...)
+	return b.String()
 }
 
-// espace special CSS char
-func escape(s string) string { return specialCharReplacer.Replace(s) }
+// escapeString serializes a string, following
+// https://drafts.csswg.org/cssom/#serialize-a-string
+func escapeString(s string) string {
+	var b strings.Builder
+	b.WriteByte('"')
+	for _, r := range s {
+		switch {
+		case r == 0:
+			b.WriteRune('\uFFFD')
+		case r <= 0x1F || r == 0x7F:
+			fmt.Fprintf(&b, "\\%x ", r)
+		case r == '"' || r == '\\':
+			b.WriteByte('\\')
+			b.WriteRune(r)
+		default:
+			b.WriteRune(r)
+		}
+	}
+	b.WriteByte('"')
+	return b.String()
+}
 
 func (c tagSelector) String() string {
 	if c.tag != 0 {
 		return c.tag.String()
 	}
-	return c.tagS
+	return escape(c.tagS)
 }
 
 func (c idSelector) String() string {
@@ -41,7 +74,7 @@ func (c attrSelector) String() string {
 	if c.operation == "#=" {
 		val = c.regexp.String()
 	} else if c.operation != "" {
-		val = fmt.Sprintf(`"%s"`, val)
+		val = escapeString(val)
 	}
 
 	ignoreCase := ""
@@ -49,7 +82,7 @@ func (c attrSelector) String() string {
 		ignoreCase = " i"
 	}
 
-	return fmt.Sprintf(`[%s%s%s%s]`, c.key, c.operation, val, ignoreCase)
+	return fmt.Sprintf(`[%s%s%s%s]`, escape(c.key), c.operation, val, ignoreCase)
 }
 
 func (c relativePseudoClassSelector) String() string {
